@@ -82,7 +82,7 @@ func genC07(t *rapid.T, tier string) (*World, any) {
 		p.Defs = append(p.Defs, [2]string{n, vals[n]})
 	}
 	refPool := append([]string{}, names...)
-	refPool = append(refPool, "undefined-name", "nope")
+	refPool = append(refPool, "undefined-name", "nope", "inconly")
 	where := map[string]bool{}
 	ref := func(label, place string) string {
 		if len(names) == 0 && !chance(t, 20, label+"-undef") {
@@ -154,12 +154,31 @@ func genC07(t *rapid.T, tier string) (*World, any) {
 			if !incUsed {
 				incUsed = true
 				inc := []string{entry("inc", "include"), entry("inc2", "include")}
+				var incDefs [][2]string
+				if chance(t, 40, "incdefs") {
+					// the included file has definitions of its own: they apply inside it and do not leak out;
+					// a name defined in both files means the include's value inside the include
+					incDefs = append(incDefs, [2]string{"inconly", pick(t, []string{"IV", "[0-9]", "m+"}, "incv")})
+					if len(names) > 0 && chance(t, 50, "incshadow") {
+						incDefs = append(incDefs, [2]string{names[0], pick(t, []string{"SH", "h?"}, "incsh")})
+					}
+					inc = append(inc, "w{{inconly}}")
+					where["include-own-definitions"] = true
+				}
 				if chance(t, 25, "incpfx") {
 					inc = append([]string{"##!^ " + entry("incp", "include-prefix")}, inc...)
 				}
-				w.Put("crs/regex-assembly/include/words.ra", joinLines(inc))
+				var incFile []string
+				for _, d := range incDefs {
+					incFile = append(incFile, "##!> define "+d[0]+" "+d[1])
+				}
+				w.Put("crs/regex-assembly/include/words.ra", joinLines(append(incFile, inc...)))
 				exp := make([]string, len(inc))
 				for k, l := range inc {
+					// the include's own definitions first, then the including file's
+					for _, d := range incDefs {
+						l = strings.ReplaceAll(l, "{{"+d[0]+"}}", d[1])
+					}
 					exp[k] = expand(l)
 				}
 				w.Put("crs/regex-assembly/include/words-expanded.ra", joinLines(exp))
